@@ -50,7 +50,7 @@ Proof. fmono_fix. Qed.
 #[export] Hint Resolve fm_get_root fm_top_walk fm_is_within fm_abs_geometry_up : fm.
 
 Ltac fmono_def := intros; unfold abs_geometry, find_child, insert_last, hremove, hraise, hlower, do_change, request_change,
-  purge, close, root_cleanup, window_new, window_show, window_hide, do_restore, window_flush, copy_children, is_child; fle_auto.
+  purge, close, root_cleanup, window_new, window_show, window_hide, do_restore, flush_begin, flush_end, copy_children, is_child, scrollrect; fle_auto.
 Lemma fm_focus_chain_changed : forall f f', (f <= f')%nat -> forall w, fle (focus_chain_changed f w) (focus_chain_changed f' w).
 Proof. fmono_fix. Qed.
 #[export] Hint Resolve fm_focus_chain_changed : fm.
@@ -132,21 +132,6 @@ Proof. fmono_def. Qed.
 Lemma fm_window_hide : forall f f', (f <= f')%nat -> forall w, fle (window_hide f w) (window_hide f' w).
 Proof. fmono_def. Qed.
 #[export] Hint Resolve fm_window_hide : fm.
-Lemma fm_focus_lost : forall f f', (f <= f')%nat -> forall w, fle (focus_lost f w) (focus_lost f' w).
-Proof. fmono_fix. Qed.
-#[export] Hint Resolve fm_focus_lost : fm.
-Lemma fm_focus_gained : forall f f', (f <= f')%nat -> forall w ch, fle (focus_gained f w ch) (focus_gained f' w ch).
-Proof. fmono_fix. Qed.
-#[export] Hint Resolve fm_focus_gained : fm.
-Lemma fm_do_expose_both : forall f f', (f <= f')%nat ->
-  (forall w, fle (do_expose f w) (do_expose f' w)) /\ (forall k, fle (do_expose_kids f k) (do_expose_kids f' k)).
-Proof.
-  induction f as [|f IH]; intros f' Hle; [split; intros; apply fle_nofuel|].
-  destruct f' as [|f']; [lia|]. destruct (IH f' ltac:(lia)) as (I1 & I2). split; intros; cbn; fle_auto.
-Qed.
-Lemma fm_do_expose : forall f f', (f <= f')%nat -> forall w, fle (do_expose f w) (do_expose f' w).
-Proof. intros. apply fm_do_expose_both. assumption. Qed.
-#[export] Hint Resolve fm_do_expose : fm.
 Lemma fm_cell_visible_kids : forall f f', (f <= f')%nat -> forall k prev, fle (cell_visible_kids f k prev) (cell_visible_kids f' k prev).
 Proof. fmono_fix. Qed.
 #[export] Hint Resolve fm_cell_visible_kids : fm.
@@ -162,9 +147,11 @@ Proof. fmono_def. Qed.
 Lemma fm_apply_queue : forall f f', (f <= f')%nat -> forall q, fle (apply_queue f q) (apply_queue f' q).
 Proof. fmono_fix. Qed.
 #[export] Hint Resolve fm_apply_queue : fm.
-Lemma fm_window_flush : forall f f', (f <= f')%nat -> forall w, fle (window_flush f w) (window_flush f' w).
+Lemma fm_flush_begin : forall f f', (f <= f')%nat -> forall w, fle (flush_begin f w) (flush_begin f' w).
 Proof. fmono_def. Qed.
-#[export] Hint Resolve fm_window_flush : fm.
+Lemma fm_flush_end : forall f f', (f <= f')%nat -> forall w, fle (flush_end f w) (flush_end f' w).
+Proof. fmono_def. Qed.
+#[export] Hint Resolve fm_flush_begin fm_flush_end : fm.
 Lemma fm_in_tree_both : forall f f', (f <= f')%nat ->
   (forall t w, fle (in_tree f t w) (in_tree f' t w)) /\ (forall k w, fle (in_tree_kids f k w) (in_tree_kids f' k w)).
 Proof.
@@ -186,6 +173,17 @@ Proof. fmono_fix. Qed.
 Lemma fm_is_child : forall f f', (f <= f')%nat -> forall w c, fle (is_child f w c) (is_child f' w c).
 Proof. fmono_def. Qed.
 #[export] Hint Resolve fm_is_child : fm.
+Lemma fm_sib_walk : forall f f', (f <= f')%nat -> forall k a, fle (sib_walk f k a) (sib_walk f' k a).
+Proof. fmono_fix. Qed.
+#[export] Hint Resolve fm_sib_walk : fm.
+Lemma fm_any_visible : forall f f', (f <= f')%nat -> forall k, fle (any_visible f k) (any_visible f' k).
+Proof. fmono_fix. Qed.
+Lemma fm_scroll_up : forall f f', (f <= f')%nat -> forall a c, fle (scroll_up f a c) (scroll_up f' a c).
+Proof. fmono_fix. Qed.
+#[export] Hint Resolve fm_scroll_up fm_any_visible : fm.
+Lemma fm_scrollrect : forall f f', (f <= f')%nat -> forall w, fle (scrollrect f w) (scrollrect f' w).
+Proof. fmono_def. Qed.
+#[export] Hint Resolve fm_scrollrect : fm.
 Lemma fm_count_up : forall f f', (f <= f')%nat -> forall w, fle (count_up f w) (count_up f' w).
 Proof. fmono_fix. Qed.
 #[export] Hint Resolve fm_count_up : fm.
@@ -194,6 +192,15 @@ Lemma fm_dispatch : forall f f', (f <= f')%nat ->
   (forall o, fle (run_op fixed f o) (run_op fixed f' o)) /\ (forall l, fle (run_ops fixed f l) (run_ops fixed f' l)) /\
   (forall w hs, fle (run_key_handlers fixed f w hs) (run_key_handlers fixed f' w hs)) /\
   (forall w hs t u, fle (run_mouse_handlers fixed f w hs t u) (run_mouse_handlers fixed f' w hs t u)) /\
+  (forall w hs k, fle (run_ev_handlers fixed f w hs k) (run_ev_handlers fixed f' w hs k)) /\
+  (forall w, fle (set_geometry fixed f w) (set_geometry fixed f' w)) /\
+  fle (on_term_resize fixed f) (on_term_resize fixed f') /\
+  (forall w, fle (do_expose fixed f w) (do_expose fixed f' w)) /\
+  (forall w k, fle (expose_kids fixed f w k) (expose_kids fixed f' w k)) /\
+  (forall w c, fle (expose_kids_asis fixed f w c) (expose_kids_asis fixed f' w c)) /\
+  (forall w, fle (focus_lost fixed f w) (focus_lost fixed f' w)) /\
+  (forall w c, fle (focus_gained fixed f w c) (focus_gained fixed f' w c)) /\
+  (forall w, fle (window_flush fixed f w) (window_flush fixed f' w)) /\
   (forall w, fle (handle_key fixed f w) (handle_key fixed f' w)) /\
   (forall w s k, fle (key_kids fixed f w s k) (key_kids fixed f' w s k)) /\
   (forall w c, fle (key_kids_asis fixed f w c) (key_kids_asis fixed f' w c)) /\
@@ -205,12 +212,21 @@ Lemma fm_dispatch : forall f f', (f <= f')%nat ->
 Proof.
   induction f as [|f IH]; intros f' Hle; [repeat split; intros; apply fle_nofuel|].
   destruct f' as [|f']; [lia|]. assert (Hle' : (f <= f')%nat) by lia.
-  destruct (IH f' Hle') as (I1 & I2 & I3 & I4 & I5 & I6 & I7 & I8 & I9 & I10 & I11 & I12 & I13).
+  destruct (IH f' Hle') as (I1 & I2 & I3 & I4 & I5 & I6 & I7 & I8 & I9 & I10 & I11 & I12 & I13 & I14 & I15 & I16 & I17 & I18 & I19 & I20 & I21 & I22).
   repeat split; intros.
-  - rewrite !run_op_F. fle_auto.
+  - rewrite !run_op_F. cbn [v_events_asis fixed]. fle_auto.
   - rewrite !run_ops_F. fle_auto.
   - rewrite !run_key_handlers_F. fle_auto.
   - rewrite !run_mouse_handlers_F. fle_auto.
+  - rewrite !run_ev_handlers_F. fle_auto.
+  - rewrite !set_geometry_F. cbn [v_events_asis fixed]. fle_auto.
+  - rewrite !on_term_resize_F. cbn [v_events_asis fixed]. fle_auto.
+  - rewrite !do_expose_F. cbn [v_events_asis fixed]. fle_auto.
+  - rewrite !expose_kids_F. fle_auto.
+  - rewrite !expose_kids_asis_F. fle_auto.
+  - rewrite !focus_lost_F. cbn [v_events_asis fixed]. fle_auto.
+  - rewrite !focus_gained_F. cbn [v_events_asis fixed]. fle_auto.
+  - rewrite !window_flush_F. cbn [v_events_asis fixed]. fle_auto.
   - rewrite !handle_key_F. cbn [v_events_asis fixed]. fle_auto.
   - rewrite !key_kids_F. fle_auto.
   - rewrite !key_kids_asis_F. fle_auto.
@@ -236,8 +252,8 @@ Qed.
 
 (* ---- (2) with events there is no fuel bound: a key handler that sends the key again recurses for ever,
         in the model as in the library (stack exhaustion); every fuel runs out ---- *)
-Definition loop_handler : handler := mkH 0 true 0 false [OKey].
-Definition loop_script : list op := [OBind 1 0 true 0 false [OKey]; OKey].
+Definition loop_handler : handler := mkH 0 HKey 0 false [OKey].
+Definition loop_script : list op := [OBind 1 0 HKey 0 false [OKey]; OKey].
 
 Definition loop_heap (h : heap) : Prop :=
   exists c, PM.find 1%positive (wins h) = Some c /\ w_visible c = true /\ w_first c = None /\ w_focus c = None /\
@@ -278,7 +294,7 @@ Proof.
   unfold bind at 1. rewrite (getw_find _ c3 h3 Hc3). rewrite Hhs3. unfold bind at 1.
   assert (G : run_key_handlers fixed f2 1%positive [loop_handler] h3 = NoFuel); [|rewrite G; reflexivity].
   destruct f2 as [|f3]; [reflexivity|]. rewrite run_key_handlers_F. unfold bind at 1. rewrite (getw_find _ c3 h3 Hc3).
-  rewrite Hhs3. cbn [h_key loop_handler existsb h_id Z.eqb orb andb h_actions h_ret].
+  rewrite Hhs3. cbn [h_is h_kind hkind_eqb loop_handler existsb h_id Z.eqb orb andb h_actions h_ret].
   unfold bind at 1.
   assert (G : run_ops fixed f3 [OKey] h3 = NoFuel); [|rewrite G; reflexivity].
   destruct f3 as [|f4]; [reflexivity|]. rewrite run_ops_F. unfold bind at 1.
@@ -289,7 +305,7 @@ Theorem no_fuel_bound_with_events : forall fuel, exists s, run_script fixed fuel
 Proof.
   intro fuel. unfold run_script, loop_script. cbn [run_script_from].
   destruct fuel as [|f]; [exists O; reflexivity|].
-  destruct (run_op fixed (S f) (OBind 1 0 true 0 false [OKey]) (heap0 fixed)) as [u h1| |] eqn:E.
+  destruct (run_op fixed (S f) (OBind 1 0 HKey 0 false [OKey]) (heap0 fixed)) as [u h1| |] eqn:E.
   - assert (L : loop_heap h1).
     { rewrite run_op_F in E. cbn in E. inversion E; subst h1. eexists. split; [cbn; reflexivity|]. cbn. auto. }
     rewrite (key_runs_out (S f) h1 L). eauto.
